@@ -45,10 +45,13 @@ type c13Req struct {
 	Err6 bool `json:"err6"`
 	// Tr: 0 Min (registered), 1 a transport that is not registered (error after the selections)
 	Tr int `json:"tr"`
+	// Miss (real lane): the client's generation is in none of the subnets files, the REAL selector
+	// answers "generation number not recognized" at the request's first selection
+	Miss bool `json:"miss"`
 }
 
 type c13Act struct {
-	Op string `json:"op"` // req | rel | reload
+	Op string `json:"op"` // req | rel | reload ; real lane also: write (I = set id) | rewrap
 	I  int    `json:"i"`
 }
 
@@ -67,6 +70,8 @@ type c13Case struct {
 	Script  []c13Act  `json:"script"`
 	Iters   int       `json:"iters"`
 	BoundMs int       `json:"bound_ms"`
+	// real lane: the subnets file is rewritten at ONE path (true) or every set gets a path of its own
+	SamePath bool `json:"samepath"`
 }
 
 type c13ReqObs struct {
@@ -75,6 +80,10 @@ type c13ReqObs struct {
 	V4ver int    `json:"v4ver"` // -1: no v4 address in the response
 	V6ver int    `json:"v6ver"`
 	Sent  bool   `json:"sent"`
+	// real lane: index of the script action after which the request was seen finished (-1: only at the end),
+	// the round it was launched in, and whether it ran on a wrapped (pausable) selector throughout
+	DoneAt int `json:"done_at"`
+	Round  int `json:"round"`
 }
 
 type c13MObs struct {
@@ -96,6 +105,14 @@ type c13Res struct {
 	NReq        int         `json:"nreq"`
 	Dump        string      `json:"dump"`
 	WallMs      int64       `json:"wall_ms"`
+	// real lane
+	RoundInit  []int    `json:"round_init"`  // subnet set installed at the start of every round (probed when quiescent)
+	Unsettled  int      `json:"unsettled"`   // actions after which the system did not reach a stable state in time
+	ReloadErrL []bool   `json:"reload_errl"` // per reload: returned an error
+	SelLog     [][4]int `json:"sel_log"`     // (request, v6?, object id of the selector read, set it answered from / -1)
+	Objects    int      `json:"objects"`     // distinct selector objects the rounds were started on
+	NRel       int      `json:"nrel"`        // realstress: reloads performed
+	ReqErrs    int      `json:"req_errs"`    // realstress: requests that returned an error
 }
 
 func c13ReaderCount(m *sync.RWMutex) int32 {
@@ -662,6 +679,12 @@ func TestVerifC13(t *testing.T) {
 			res[i] = c13Stress(c, dir)
 		case "rwm":
 			res[i] = c13Rwm(c)
+		case "real":
+			sub, _ := os.MkdirTemp(dir, "real")
+			res[i] = c13RealSched(c, sub)
+		case "realstress":
+			sub, _ := os.MkdirTemp(dir, "rstress")
+			res[i] = c13RealStress(c, sub)
 		}
 	}
 	out, _ := json.Marshal(res)
